@@ -306,6 +306,9 @@ type failStore struct {
 	adds, updates        int
 	failAdd, failUpdate  int
 	failedAdd, failedUpd int
+	probe                func()
+	lockHeld             []string // store calls during which the syncer's mutex was held
+	bans                 []string
 }
 
 func (f *failStore) AddPeer(addr string) error {
@@ -316,6 +319,7 @@ func (f *failStore) AddPeer(addr string) error {
 		f.failedAdd++
 	}
 	f.mu.Unlock()
+	f.probeLock("AddPeer")
 	if fail {
 		return fmt.Errorf("peer store unavailable")
 	}
@@ -330,10 +334,43 @@ func (f *failStore) UpdatePeerInfo(addr string, fn func(*syncer.PeerInfo)) error
 		f.failedUpd++
 	}
 	f.mu.Unlock()
+	f.probeLock("UpdatePeerInfo")
 	if fail {
 		return fmt.Errorf("peer store unavailable")
 	}
 	return f.PeerStore.UpdatePeerInfo(addr, fn)
+}
+
+// probeLock: a peer store may call back into the syncer (for instance Peers(), to drop the peers
+// it has just banned).  Every store call does that here; if the syncer calls the store with its
+// mutex held the callback cannot return — reported after a timeout, then the store call returns so
+// that the run goes on.
+func (f *failStore) probeLock(call string) {
+	f.mu.Lock()
+	probe := f.probe
+	f.mu.Unlock()
+	if probe == nil {
+		return
+	}
+	done := make(chan struct{})
+	go func() { probe(); close(done) }()
+	select {
+	case <-done:
+	case <-time.After(2 * time.Second):
+		f.mu.Lock()
+		f.lockHeld = append(f.lockHeld, call)
+		f.mu.Unlock()
+		// (not waited for: it returns when the syncer releases its mutex, which it does only
+		// after this store call has returned)
+	}
+}
+
+func (f *failStore) Ban(addr string, d time.Duration, reason string) error {
+	f.mu.Lock()
+	f.bans = append(f.bans, addr)
+	f.mu.Unlock()
+	f.probeLock("Ban(" + addr + ")")
+	return f.PeerStore.Ban(addr, d, reason)
 }
 
 func (f *failStore) failed() int {
